@@ -215,7 +215,13 @@ func main() {
 	ins := make([]Sx, len(inputs))
 	var sb strings.Builder
 	for i := range inputs {
-		ins[i] = p.Input(inputs[i])
+		if io, ok := p.(interface {
+			InputObs(in interface{}, obs Sx) Sx
+		}); ok {
+			ins[i] = io.InputObs(inputs[i], obs[i])
+		} else {
+			ins[i] = p.Input(inputs[i])
+		}
 		ins[i].Line(&sb)
 		sb.WriteByte('\t')
 		obs[i].Line(&sb)
